@@ -432,6 +432,8 @@ class Interp:
         self.journal = None  # list of (cell, old) when inside a symbolic branch
         self.post_returns = []  # [frame, cond, {id(cell): (cell, old)}]: writes made after a return taken under cond
         self.assumptions = []
+        if getattr(hooks, 'unit_for_records', 0) is None:
+            hooks.unit_for_records = unit
         self.loops = []  # active symbolic loops
         self.trace_calls = []
 
@@ -1483,7 +1485,21 @@ class Interp:
 
     def compare(self, op, a, b, node):
         if isinstance(a, ITE) or isinstance(b, ITE):
-            raise Unsupported('comparison of guarded values at %s' % self.loc(node))
+            # case split on the guard of the guarded operand
+            g = a if isinstance(a, ITE) else b
+            if isinstance(a, ITE):
+                x, y = self.compare(op, a.a, b, node), self.compare(op, a.b, b, node)
+            else:
+                x, y = self.compare(op, a, b.a, node), self.compare(op, a, b.b, node)
+            if not isinstance(x, Cond) and not isinstance(y, Cond) and x == y:
+                return x
+            cx = x if isinstance(x, Cond) else Cond('atom', bool(x))
+            cy = y if isinstance(y, Cond) else Cond('atom', bool(y))
+            if not isinstance(x, Cond):
+                return Cond('and', g.cond.negate(), cy) if not x else Cond('or', g.cond, cy)
+            if not isinstance(y, Cond):
+                return Cond('and', g.cond, cx) if not y else Cond('or', g.cond.negate(), cx)
+            return Cond('or', Cond('and', g.cond, cx), Cond('and', g.cond.negate(), cy))
         if isinstance(a, Ptr) or isinstance(b, Ptr):
             if isinstance(a, int) and a == 0:
                 a = NULL
@@ -1545,8 +1561,8 @@ class Interp:
             elif da.equals(-d):
                 known &= {-x for x in self._SIGNS[a.op]}
                 hit = True
-        if not hit:
-            return None
+        if not hit or not known:
+            return None  # nothing known, or contradictory conditions (an infeasible path): not decided here
         q = self._SIGNS[op]
         if known <= q:
             return 1
@@ -1923,6 +1939,8 @@ class Interp:
         if is_int_type(t) and isinstance(v, int):
             v = wrap_int(v, t)
         self.write(cell, v, d)
+        if isinstance(v, Obj) and not (d.get('staticLocal') or d.get('tls')):
+            self.track(cell, 'local')  # an aggregate-initialised local of a class with a destructor (a scope guard)
 
     def make_array(self, name, dims):
         if len(dims) == 1:
@@ -1951,6 +1969,7 @@ class Interp:
         def run(arm, assumption):
             self.journal = []
             thrown = None
+            mark = len(self.assumptions)
             self.assumptions.append(assumption)
             try:
                 if arm is not None:
@@ -1960,7 +1979,8 @@ class Interp:
             except _Return as r:
                 thrown = r  # the arm's own writes (if any) take effect under the branch condition only
             finally:
-                self.assumptions.pop()
+                # the arm's condition, and whatever was assumed further inside the arm, holds in the arm only
+                del self.assumptions[mark:]
             j = self.journal
             writes = {}
             for cell, old in j:
